@@ -647,6 +647,39 @@ func (b *binder) bindCall(x *ssa.Call, d int) string {
 	if s, ok := b.inlineSelector(cal, as, -1, d); ok {
 		return s
 	}
+	// a local closure over the function's column objects that is told by a constant which column to read
+	// (`runsOn := func(day int) bool { return cols[day].Read() == "1" }; runsOn(3)`): its one result with the
+	// constant put in place of the parameter
+	if cal.Parent() != nil && len(cal.Blocks) == 1 && len(cal.Params) == len(cc.Args) && len(cc.Args) > 0 && b.inlineD < 3 {
+		if ret, isRet := cal.Blocks[0].Instrs[len(cal.Blocks[0].Instrs)-1].(*ssa.Return); isRet && len(ret.Results) == 1 {
+			allConst := true
+			saved := idxSubst
+			ns := map[ssa.Value]int64{}
+			for k, v := range saved {
+				ns[k] = v
+			}
+			for i, a := range cc.Args {
+				k, isC := constInt(a)
+				if !isC {
+					allConst = false
+					break
+				}
+				ns[cal.Params[i]] = k
+			}
+			readsColumn := false
+			for _, in := range cal.Blocks[0].Instrs {
+				if c2, ok := in.(*ssa.Call); ok && strings.HasPrefix(calleeName(c2), "("+modPath+"/csv.") {
+					readsColumn = true
+				}
+			}
+			if allConst && readsColumn {
+				idxSubst = ns
+				out := b.withArgs(cal, as).bindD(ret.Results[0], d+1)
+				idxSubst = saved
+				return out
+			}
+		}
+	}
 	if b.c.P.isModuleFn(cal) {
 		b.classOf[cal.Name()] = sigClass(cal)
 	}
